@@ -43,7 +43,7 @@ def _check_out(vals, exp, field, step):
 
 def replay(beh, variant=0):
     cfg, steps = beh["cfg"], beh["steps"]
-    kw = dict(target_mean=cfg["tm"], target_fwhm=cfg["K"] * FW, num_bits=cfg["bits"],
+    kw = dict(target_mean=cfg["tm"] / 4.0, target_fwhm=cfg["K"] * FW, num_bits=cfg["bits"],
               stats_calc_period=cfg["period"], stats_calc_num_samples=2)
     obj = qz.ComplexQuantizer(**kw) if cfg["cplx"] else qz.RealQuantizer(**kw)
     try:
@@ -103,7 +103,8 @@ def standalone(cfg_space, rng):
     out = []
     for bits in cfg_space["bits"]:
         for K in (1, 3):
-            for tm in (0, 1, -2):
+            for tm4 in (0, 4, -8, 2, -15, 9):          # target means in quarters, as in Quantizer.tla
+                tm = tm4 / 4.0
                 for s in (0, 2, 4):
                     m = int(rng.integers(-20, 20))
                     x = data_of(m, s)
@@ -111,11 +112,13 @@ def standalone(cfg_space, rng):
                     exp = []
                     for v in ([m - s, m + s] + XS if s else [m] * (len(XS) + 2)):
                         if s == 0:
-                            e = {min(max(tm, lo), hi)}
+                            f, r = tm4 // 4, tm4 % 4
+                            e = {f} if 2 * r < 4 else ({f + 1} if 2 * r > 4 else {f, f + 1})
+                            e = {min(max(t, lo), hi) for t in e}
                         else:
-                            N = K * (v - m) + tm * s
-                            f, r = N // s, N % s
-                            e = {f} if 2 * r < s else ({f + 1} if 2 * r > s else {f, f + 1})
+                            N, d4 = 4 * K * (v - m) + tm4 * s, 4 * s
+                            f, r = N // d4, N % d4
+                            e = {f} if 2 * r < d4 else ({f + 1} if 2 * r > d4 else {f, f + 1})
                             e = {min(max(t, lo), hi) for t in e}
                         exp.append(sorted(e))
                     got = qz.quantize_real(x, target_mean=tm, target_std=K, num_bits=bits, stats_calc_num_samples=2)
